@@ -12,6 +12,8 @@ pub fn cubic<const B: Word>(&self, f: &Repr<B>) -> Rounded<FBig<R, B>>
         isize::MIN <= 3 * f.exponent <= isize::MAX,
         3 * f.exponent + ndigits(B as int, f.significand.v() * f.significand.v() * f.significand.v()) <= isize::MAX,
         ndigits(B as int, f.significand.v() * f.significand.v() * f.significand.v()) <= isize::MAX,
+        // resource limit: exponent overflow is a documented panic (C16), not modelled (digit position of the split in repr_round)
+        pos_room(ndigits(B as int, f.significand.v() * f.significand.v() * f.significand.v()) as int),
     ensures
         // C03: ONE correct rounding of the exact cube f.sig^3 * B^(3 f.exp)
         round_val(R::md(), B as int, self.precision, f.significand.v() * f.significand.v() * f.significand.v(),
